@@ -1,6 +1,7 @@
 package main
 
 import (
+	"time"
 	"context"
 	"crypto/md5"
 	"fmt"
@@ -239,6 +240,7 @@ func (h *c24Hist) twinCopy(op *vmodel.Op, res *vmodel.Result, srcBack, dstBack *
 	if res.Kind != "" {
 		return
 	}
+	h.timeConditionProbes(op, srcBack, dstBack)
 	realGet := doGet(h.ctx, h.mw, op.Bucket, op.Key, nil, nil, -1)
 	twinGet := doGet(h.ctx, srcBack.real, tw.Bucket, tw.Key, nil, nil, -1)
 	h.drainAll()
@@ -264,6 +266,55 @@ func (h *c24Hist) twinCopy(op *vmodel.Op, res *vmodel.Result, srcBack, dstBack *
 		}
 		h.report("cross-storage-copy-"+verb+":"+field,
 			fmt.Sprintf("%s (source on %s, destination on %s, %s): destination %s = %q, the same copy executed with source and destination on one storage gives %q", op, srcBack.label, dstBack.label, shape, d.Field, d.A, d.B), inScope, nil)
+	}
+}
+
+// timeConditionProbes: the source of a cross-storage copy is copied again with
+// x-amz-copy-source-if-(un)modified-since conditions placed around its own
+// Last-Modified (the value a client echoes back has whole seconds), once across
+// storages through the router and once within the source's storage; both must
+// answer alike. Destinations are the twin buckets (outside the model).
+func (h *c24Hist) timeConditionProbes(op *vmodel.Op, srcBack, dstBack *c24Backing) {
+	sb, sk := storage.MustNewBucketName(op.SrcBucket), storage.MustNewObjectKey(op.SrcKey)
+	var ho *storage.HeadObjectOptions
+	if op.SrcVersionID != nil {
+		ho = &storage.HeadObjectOptions{VersionID: op.SrcVersionID}
+	}
+	src, err := srcBack.real.HeadObject(h.ctx, sb, sk, ho)
+	if err != nil || src == nil {
+		return
+	}
+	lm := src.LastModified
+	sec := lm.Truncate(time.Second)
+	type probe struct {
+		name   string
+		unmod  *time.Time
+		modded *time.Time
+	}
+	tp := func(t time.Time) *time.Time { return &t }
+	probes := []probe{
+		{"if-unmodified-since=last-modified-second", tp(sec), nil},
+		{"if-modified-since=last-modified-second", nil, tp(sec)},
+		{"if-unmodified-since=second-before", tp(sec.Add(-time.Second)), nil},
+		{"if-modified-since=second-after", nil, tp(sec.Add(time.Second))},
+		{"if-unmodified-since=exact-instant", tp(lm), nil},
+		{"if-modified-since=exact-instant", nil, tp(lm)},
+	}
+	dk := storage.MustNewObjectKey("probe/time-condition")
+	for _, p := range probes {
+		mk := func() *storage.CopyObjectOptions {
+			return &storage.CopyObjectOptions{SourceVersionID: op.SrcVersionID, CopySourceConditions: storage.CopySourceConditions{IfUnmodifiedSince: p.unmod, IfModifiedSince: p.modded}}
+		}
+		_, cerr := h.mw.CopyObject(h.ctx, sb, sk, storage.MustNewBucketName(h.twin[dstBack]), dk, mk())
+		_, serr := srcBack.real.CopyObject(h.ctx, sb, sk, storage.MustNewBucketName(h.twin[srcBack]), dk, mk())
+		h.drainAll()
+		ck, skd := vmodel.ErrKind(cerr), vmodel.ErrKind(serr)
+		h.r.Count("cross_copy_time_condition_probes", 1)
+		h.r.Seen("cross_copy_time_condition_outcomes", p.name+":"+orOK(skd))
+		if ck != skd {
+			h.report(fmt.Sprintf("cross-storage-copy-result:%s:%s-vs-same-storage-%s", p.name, orOK(ck), orOK(skd)),
+				fmt.Sprintf("CopyObject of %s/%s (Last-Modified %s) with %s from %s to %s returned %q; the same copy within %s returned %q", op.SrcBucket, op.SrcKey, lm.Format(time.RFC3339Nano), p.name, srcBack.label, dstBack.label, orOK(ck), srcBack.label, orOK(skd)), nil, map[string]any{"probe": p.name, "source_last_modified": lm})
+		}
 	}
 }
 
